@@ -560,14 +560,49 @@ func VerifC20Seq() {
 	}
 }
 
-// VerifC20Wrap: wrapIfUnauthorized on its own.
+// VerifC20Wrap: how an error answered by the leader leaves the proxy, through the public entry
+// points only (no private helper is named here, so a refactoring of the proxy's internals cannot
+// stop this entry from loading): exactly the text "unauthorized" becomes ErrUnauthorized, every
+// other leader error - also one that merely resembles it, and one whose text equals a local
+// sentinel's - is handed back as the very same value and is not mistaken for ErrUnauthorized.
 func VerifC20Wrap() {
-	verifAssert("C20-wrap-nil", wrapIfUnauthorized(nil) == nil)
+	forward := func(op int, remote error) error {
+		w := &verifWorld{}
+		p := New(&verifStore{w}, &verifCluster{w})
+		w.localErr = store.ErrNotLeader
+		w.leaderAddr = "L"
+		w.remoteErr = remote
+		ctx := &verifCtx{tag: 0}
+		var err error
+		switch op {
+		case 0:
+			_, _, _, err = p.Execute(ctx, &proto.ExecuteRequest{}, nil, time.Second, 0, false)
+		case 1:
+			_, _, _, err = p.Query(ctx, &proto.QueryRequest{}, nil, time.Second, 0, false)
+		case 2:
+			_, _, _, _, err = p.Request(ctx, &proto.ExecuteQueryRequest{}, nil, time.Second, 0, false)
+		case 3:
+			_, err = p.Backup(ctx, &proto.BackupRequest{}, &verifWriter{}, nil, time.Second, false)
+		case 4:
+			_, err = p.Load(ctx, &proto.LoadRequest{}, nil, time.Second, 0, false)
+		case 5:
+			_, err = p.Remove(ctx, &proto.RemoveNodeRequest{}, nil, time.Second, false)
+		case 6:
+			_, err = p.Stepdown(ctx, false, "n", nil, time.Second, false)
+		}
+		return err
+	}
+	op := verifChoice("wrapOp", 7)
+	verifAssert("C20-wrap-nil", forward(op, nil) == nil)
 	e := errors.New("unauthorized")
-	verifAssert("C20-wrap-unauthorized", errors.Is(wrapIfUnauthorized(e), ErrUnauthorized))
-	o := errors.New("unauthorized ") // not the exact message
-	verifAssert("C20-wrap-other-unchanged", wrapIfUnauthorized(o) == o)
-	verifAssert("C20-wrap-other-not-unauthorized", !errors.Is(wrapIfUnauthorized(o), ErrUnauthorized))
+	verifAssert("C20-wrap-unauthorized", errors.Is(forward(op, e), ErrUnauthorized))
+	for _, text := range []string{"unauthorized ", "Unauthorized", "not leader", "leader not found", ""} {
+		o := errors.New(text) // not the exact message
+		got := forward(op, o)
+		verifAssert("C20-wrap-other-unchanged", got == o)
+		verifAssert("C20-wrap-other-not-unauthorized", !errors.Is(got, ErrUnauthorized))
+		verifAssert("C20-wrap-remote-error-is-no-local-sentinel", !errors.Is(got, ErrNotLeader) && !errors.Is(got, ErrLeaderNotFound))
+	}
 	verifAssert("C20-sentinels-are-the-stores", errors.Is(store.ErrNotLeader, ErrNotLeader) && errors.Is(store.ErrLeaderNotFound, ErrLeaderNotFound))
 	verifReach("wrap-done")
 }
